@@ -200,6 +200,25 @@ def tlc(module, cfg, workdir, consts_env=None, workers=8, simulate=None, depth=N
     return r
 
 
+_EVAL = re.compile(r"Attempted to (check equality|compare|apply|select|access)|which is out of bounds|was not in the domain|not enumerable")
+
+
+def recorded_line_not_evaluable(chk, r, offset, what):
+    """A TRACE specification met a recorded line it cannot evaluate (TLC raises an evaluation error, it does not answer
+    FALSE, when for instance a record is compared with a string). On recorded output of the real code that is a
+    disagreement between what the code produced and the shape the specification expects: it is reported as a violation
+    naming the line, not as a tool error (on the unchanged tree it never happens; both would count against the check).
+    Returns True if the failure of `r` is of that kind."""
+    if r.ok or not _EVAL.search(r.error_text or ""):
+        return False
+    m = re.findall(r"/\\ l = (\d+)", r.error_text or "")
+    line = (int(m[-1]) if m else 0) + offset
+    msg = " ".join((r.error_text or "").split())[:600]
+    chk.violation({"class": "%s-recorded-line-not-evaluable" % chk.pid, "spec": what}, {"line": line, "tlc_error": msg})
+    chk.not_evaluable = True
+    return True
+
+
 def tlc_must_pass(r, what):
     if not r.ok:
         tail = ""
@@ -413,6 +432,8 @@ def trace_validate(chk, module, cfg, trace_path, n_rows, timeout=3000, xmx="6g",
         e.update(env)
     r = tlc(module, cfg, chk.work, consts_env=e, workers=1, on_json=lambda v: result.append(v),
             timeout=timeout, xmx=xmx)
+    if recorded_line_not_evaluable(chk, r, 0, module):
+        return []
     tlc_must_pass(r, module)
     chk.add_tlc(r)
     res = [v for v in result if v and v[0] == "RESULT"]
@@ -445,6 +466,8 @@ def trace_validate_parallel(chk, module, cfg, rows, parts=8, timeout=3000, xmx="
         if env:
             e.update(env)
         r = tlc(module, cfg, wd, consts_env=e, workers=1, on_json=lambda v: result.append(v), timeout=timeout, xmx=xmx)
+        if recorded_line_not_evaluable(chk, r, off, module):
+            return r, []
         tlc_must_pass(r, module)
         res = [v for v in result if v and v[0] == "RESULT"]
         if not res or res[0][1] != cnt:
@@ -513,6 +536,8 @@ def cached_trace_validate_parallel(chk, module, cfg, rows, spec_files, extra_fil
         return c["bad"]
     s0, t0 = chk.cov["states"], chk.cov["transitions"]
     bad = trace_validate_parallel(chk, module, cfg, rows, **kw)
+    if getattr(chk, "not_evaluable", False):
+        return bad          # an incomplete verdict list is not shared with the other checks of the group
     tmp = cache + ".tmp%d" % os.getpid()
     json.dump({"bad": bad, "states": chk.cov["states"] - s0, "transitions": chk.cov["transitions"] - t0}, open(tmp, "w"))
     os.replace(tmp, cache)
